@@ -271,6 +271,8 @@ class Exec:
             r = self.equal(x, y, st, node)
             return r if isinstance(op, ast.Eq) else z3.Not(r)
         x, y = zint(self.need_not_none(x, st, node)), zint(self.need_not_none(y, st, node))
+        if isinstance(x, CArr) and isinstance(y, CArr):
+            x, y = x.off, y.off
         if isinstance(x, PyConst) and isinstance(y, PyConst):
             return z3.BoolVal({ast.Lt: x.v < y.v, ast.LtE: x.v <= y.v, ast.Gt: x.v > y.v, ast.GtE: x.v >= y.v}[type(op)])
         if not (is_z3(x) and is_z3(y)):
